@@ -96,7 +96,8 @@ impl SetOperations {
 
         let start = std::time::Instant::now();
 
-        let result = if self.config.use_bit_mask_optimization && num_ways <= self.config.bit_mask_threshold {
+        // The bit mask is a u32: never take that path with more than 32 ways
+        let result = if self.config.use_bit_mask_optimization && num_ways <= self.config.bit_mask_threshold.min(32) {
             self.stats.used_bit_mask = true;
             self.intersection_bit_mask(iterators)?
         } else {
